@@ -6,6 +6,9 @@ mod exec;
 mod exec2;
 mod exec3;
 mod exec4;
+mod exec5;
+mod exec6;
+mod exec7;
 mod sources;
 mod gen;
 mod gen2;
